@@ -42,7 +42,7 @@ class Task(object):
 
 
 class Scheduler(object):
-    def __init__(self, rng, policy, clock=None, forced=None, max_steps=2000):
+    def __init__(self, rng, policy, clock=None, forced=None, max_steps=2000, line_trace=None):
         self.rng = rng
         self.policy = policy            # dict: {"kind": ..., ...}
         self.clock = clock
@@ -63,10 +63,29 @@ class Scheduler(object):
         self.probes = {}
         self.preemptions = 0
         self.max_live = 1
+        # extended mode: every source line of the named files is a pre-emption point
+        self.line_trace = tuple(line_trace) if line_trace else None
         if policy.get("kind") == "pct":
             self.change_points = sorted(rng.randrange(1, 160) for _ in range(policy.get("d", 1)))
         else:
             self.change_points = []
+
+    # -- line-level pre-emption (extended mode) -----------------------------------------------
+    def _tracer(self, frame, event, arg):
+        if event == "call" and frame.f_code.co_filename.endswith(self.line_trace):
+            return self._line
+        return None
+
+    def _line(self, frame, event, arg):
+        if event == "line" and not self.killed:
+            code = frame.f_code
+            self.yield_point("line", "%s:%d" % (code.co_filename.rsplit("/", 1)[-1], frame.f_lineno))
+        return self._line
+
+    def trace_this_thread(self, on=True):
+        if self.line_trace:
+            import sys
+            sys.settrace(self._tracer if on else None)
 
     # -- bookkeeping ---------------------------------------------------------------------
     def probe(self, name):
@@ -217,6 +236,7 @@ class Scheduler(object):
                 return
             try:
                 self._tick("thr.run.begin", None)
+                self.trace_this_thread(True)
                 fn()
             except SimKilled:
                 pass
@@ -224,6 +244,7 @@ class Scheduler(object):
                 task.exc = exc
                 self.probe("loader_died_with_exception")
             finally:
+                self.trace_this_thread(False)
                 self._finish(task)
 
         task.real = _real.Thread(target=body, name="sim-" + task.name, daemon=True)
